@@ -242,6 +242,9 @@ def evaluate(cases, result, checks, tag, known_keys=(), shard_size=16, property_
     oracles, the others correspondence)."""
     if not cases:
         return
+    if property_id:
+        # corpus replays recorded for other drivers / properties: evaluate this property's oracles on them too
+        cases = [dict(c, oracles=sorted(set(c.get("oracles") or []) | {property_id})) for c in cases]
     outs = vlib.harness_lines("ids06", [json.dumps(c) for c in cases], timeout=1800)
     terms, owner = [], []
     dist = result["distribution"]
